@@ -96,17 +96,23 @@ PROF = gen.Profile(natoms=5, preds=((0, 0, 1), (1, 0, 2), (3, 2, 3)), consts=(A.
                    w_atom=4, w_pred=4, w_ident=2, w_neg=3, w_assert=1, w_bin=6, w_modal=3, w_quant=3, max_depth=3)
 
 
+# subscripts are arbitrary non-negative integers: besides small ones, values that CPython hashes like small ones
+# (hash(n) == n mod 2**61 - 1), so that distinct items with equal hashes meet in the construction cache
+_M61 = 2 ** 61 - 1
+SUBS = [0, 0, 1, 2, 10, 11, _M61, _M61 + 1, _M61 + 10, 2 * _M61]
+
+
 @st.composite
 def param(draw):
     mk = A.const if draw(st.booleans()) else A.var
-    return mk(draw(st.integers(0, 3)), draw(st.sampled_from([0, 0, 1, 2, 10, 11])))
+    return mk(draw(st.integers(0, 3)), draw(st.sampled_from(SUBS)))
 
 
 @st.composite
 def predicate(draw):
     if draw(st.integers(0, 5)) == 0:
         return draw(st.sampled_from(['Identity', 'Existence']))
-    return (draw(st.integers(0, 3)), draw(st.sampled_from([0, 0, 1, 2, 10])), draw(st.integers(1, 4)))
+    return (draw(st.integers(0, 3)), draw(st.sampled_from(SUBS)), draw(st.integers(1, 4)))
 
 
 @st.composite
@@ -126,7 +132,7 @@ def item(draw):
     if k <= 3:
         return ('sentence', draw(open_sentence()))
     if k == 4:
-        return ('sentence', A.atom(draw(st.integers(0, 4)), draw(st.sampled_from([0, 1, 2, 10]))))
+        return ('sentence', A.atom(draw(st.integers(0, 4)), draw(st.sampled_from(SUBS))))
     if k == 5:
         return ('param', draw(param()))
     if k == 6:
@@ -143,7 +149,7 @@ def _bump(t, draw):
     "change one coordinate of an (index, subscript) item"
     if draw(st.booleans()):
         return (t[0], (t[1] + 1) % 4, t[2])
-    return (t[0], t[1], t[2] + draw(st.sampled_from([1, 10])))
+    return (t[0], t[1], t[2] + draw(st.sampled_from([1, 10, _M61, _M61])))       # + 2**61 - 1: another item with the same hash
 
 
 @st.composite
